@@ -207,6 +207,7 @@ func runC17(c *Ctx) {
 	} else {
 		c.Fail("RETENTION-VIEWS", "imageToCodeGeneratorRequest", token.NoPos, "not found")
 	}
+	c17ProxySourceView(c)
 	// (4) name confinement in WriteResponse
 	if wr := p.Func("private/bufpkg/bufprotoplugin", "responseWriter.WriteResponse"); wr != nil {
 		winfo := wr.Info()
